@@ -494,6 +494,292 @@ theorem nut10_kind_strings : nut10_SecretKind_String 1 = "P2PK" ∧ nut10_Secret
   unfold nut10_SecretKind_String
   simp [h1, h2]
 
+section ParseTags
+open Gonuts.Model.Spend
+set_option linter.unusedSimpArgs false
+
+/-! ## cashu/nuts/nut11: ParseP2PKTags (C12, C13) -/
+
+/-- `strconv.ParseInt(s, 10, bits)` as the model has it (`Spend.parseInt`) -/
+def extPI : String → Int → Int → Int × Option String :=
+  fun s _ bits => match parseInt s bits.toNat with
+    | some n => (n, none)
+    | none => (0, some "strconv.ParseInt")
+
+/-- `nut11.ParsePublicKey` as the model's environment has it; its error is the built "invalid public key" error -/
+def extPK (env : Env) : String → PublicKey × Option String :=
+  fun s => match env.parseKey s with
+    | some k => (k, none)
+    | none => (0, some "invalid public key: %v")
+
+/-- the error values of `ParseP2PKTags` (identified by name / by the format of the message they are built from) -/
+def errOf (e : String) : Err :=
+  if e = "TooManyTagsErr" then .tooManyTags
+  else if e = "InvalidTagErr" then .invalidTag
+  else if e = "NSigsMustBePositiveErr" then .nSigsMustBePositive
+  else if e = "invalig sigflag: %v" then .badSigflag
+  else if e = "invalig n_sigs value: %v" then .badNSigs
+  else if e = "invalid locktime: %v" then .badLocktime
+  else .badPublicKey
+
+def tagsOf (t : P2PKTags) : Tags :=
+  { sigflag := t.Sigflag, nSigs := t.NSigs.toNat, pubkeys := t.Pubkeys, locktime := t.Locktime, refund := t.Refund }
+
+/-- `(*P2PKTags, error)` read as the model's result type -/
+def absRes : Option P2PKTags × Option String → Res Tags
+  | (_, some e) => .err (errOf e)
+  | (some t, none) => .ok (tagsOf t)
+  | (none, none) => .err .invalidTag
+
+theorem set_append_replicate' {α : Type} (pre : List α) (d v : α) (n k : Nat) (hk : pre.length = k) :
+    (pre ++ List.replicate (n + 1) d).set k v = (pre ++ [v]) ++ List.replicate n d := by
+  subst hk
+  induction pre with
+  | nil => simp [List.replicate_succ]
+  | cons a pre ih => simp [ih]
+
+/-- the `for i := 1; i < len(tag); i++ { pubkey, err := ParsePublicKey(tag[i]); … keys[j] = pubkey; j++ }` loops
+    are the model's `parseKeys` over the tag's values -/
+theorem keyLoopAux (env : Env) (tag : List String) {ρ : Type} (body : Int → List PublicKey × Int → Ctl ρ × (List PublicKey × Int))
+    (mkRet : Option String → ρ)
+    (hb : ∀ i ks j, body i (ks, j) =
+      if (!(Option.isNone (extPK env (idx tag i)).2)) = true then (.ret (mkRet (extPK env (idx tag i)).2), (ks, j))
+      else (.next, (ks.set j.toNat (extPK env (idx tag i)).1, j + 1))) :
+    ∀ (n k : Nat) (pre : List PublicKey), pre.length = k → k + n + 1 = tag.length →
+      (∀ ks, parseKeys env (tag.drop (1 + k)) = .ok ks →
+        rangeLoopFrom (fun m (_ : Unit) st => body (1 + Int.ofNat m) st) k (List.replicate n ())
+          (pre ++ List.replicate n default, Int.ofNat k) = (.next, (pre ++ ks, Int.ofNat (k + n)))) ∧
+      (∀ e, parseKeys env (tag.drop (1 + k)) = .err e → e = .badPublicKey ∧
+        ∃ st, rangeLoopFrom (fun m (_ : Unit) st => body (1 + Int.ofNat m) st) k (List.replicate n ())
+          (pre ++ List.replicate n default, Int.ofNat k) = (.ret (mkRet (some "invalid public key: %v")), st)) := by
+  intro n
+  induction n with
+  | zero =>
+    intro k pre hk hlen
+    have hd : tag.drop (1 + k) = [] := List.drop_eq_nil_of_le (by omega)
+    simp [hd, parseKeys, rangeLoopFrom]
+  | succ n ih =>
+    intro k pre hk hlen
+    have hlt : 1 + k < tag.length := by omega
+    have hd : tag.drop (1 + k) = tag[1 + k] :: tag.drop (1 + k + 1) := List.drop_eq_getElem_cons hlt
+    have hidx : idx tag (1 + Int.ofNat k) = tag[1 + k] := by
+      unfold idx
+      have : (1 + Int.ofNat k).toNat = 1 + k := by simp; omega
+      rw [this]; simp [List.getD, hlt]
+    have hset : ∀ key : PublicKey, (pre ++ List.replicate (n + 1) default).set (Int.ofNat k).toNat key =
+        (pre ++ [key]) ++ List.replicate n default := by
+      intro key
+      have : (Int.ofNat k).toNat = k := by simp
+      rw [this]; exact set_append_replicate' pre default key n k hk
+    have hbody := hb (1 + Int.ofNat k) (pre ++ List.replicate (n + 1) default) (Int.ofNat k)
+    rw [hidx] at hbody
+    rw [hd]
+    simp only [parseKeys]
+    cases hp : env.parseKey tag[1 + k] with
+    | none =>
+      have hx : extPK env tag[1 + k] = (0, some "invalid public key: %v") := by unfold extPK; rw [hp]
+      rw [hx] at hbody
+      simp only [Option.isNone_some, Bool.not_false, if_true] at hbody
+      rw [List.replicate_succ (a := ()), rangeLoopFrom_cons_ret hbody]
+      simp
+    | some key =>
+      have hx : extPK env tag[1 + k] = (key, none) := by unfold extPK; rw [hp]
+      rw [hx] at hbody
+      simp only [Option.isNone_none, Bool.not_true, Bool.false_eq_true, if_false] at hbody
+      have ih' := ih (k + 1) (pre ++ [key]) (by simp [hk]) (by omega)
+      have e1 : 1 + (k + 1) = 1 + k + 1 := by omega
+      rw [e1] at ih'
+      have e2 : (Int.ofNat k + 1) = Int.ofNat (k + 1) := by simp
+      rw [hset key, e2] at hbody
+      rw [List.replicate_succ (a := ()), rangeLoopFrom_cons_next hbody]
+      constructor
+      · intro ks hks
+        cases hr : parseKeys env (tag.drop (1 + k + 1)) with
+        | err e => simp [hr] at hks
+        | ok ks' =>
+          simp only [hr, Res.ok.injEq] at hks
+          subst hks
+          rw [ih'.1 ks' hr]
+          simp [Nat.add_assoc, Nat.add_comm 1 n]
+      · intro e he
+        cases hr : parseKeys env (tag.drop (1 + k + 1)) with
+        | ok ks' => simp [hr] at he
+        | err e' =>
+          simp only [hr, Res.err.injEq] at he
+          subst he
+          obtain ⟨h1, st, h2⟩ := ih'.2 e' hr
+          exact ⟨h1, st, h2⟩
+
+theorem keyLoop (env : Env) (ty v : String) (more : List String) :
+    (∀ ks, parseKeys env (v :: more) = .ok ks → ∃ j,
+      countLoop (ρ := Option P2PKTags × Option String) 1 (Int.ofNat (ty :: v :: more).length)
+        (List.replicate (Int.ofNat (ty :: v :: more).length - 1).toNat (default : PublicKey), (0 : Int)) (fun i st =>
+          if (!(extPK env (idx (ty :: v :: more) i)).snd.isNone) = true then
+            (Ctl.ret (none, (extPK env (idx (ty :: v :: more) i)).snd), st.fst, st.snd)
+          else (Ctl.next, st.fst.set st.snd.toNat (extPK env (idx (ty :: v :: more) i)).fst, st.snd + 1)) = (.next, (ks, j))) ∧
+    (∀ e, parseKeys env (v :: more) = .err e → e = .badPublicKey ∧ ∃ st,
+      countLoop (ρ := Option P2PKTags × Option String) 1 (Int.ofNat (ty :: v :: more).length)
+        (List.replicate (Int.ofNat (ty :: v :: more).length - 1).toNat (default : PublicKey), (0 : Int)) (fun i st =>
+          if (!(extPK env (idx (ty :: v :: more) i)).snd.isNone) = true then
+            (Ctl.ret (none, (extPK env (idx (ty :: v :: more) i)).snd), st.fst, st.snd)
+          else (Ctl.next, st.fst.set st.snd.toNat (extPK env (idx (ty :: v :: more) i)).fst, st.snd + 1)) =
+        (.ret (none, some "invalid public key: %v"), st)) := by
+  have h := keyLoopAux env (ty :: v :: more) (ρ := Option P2PKTags × Option String) (fun i st =>
+      if (!(extPK env (idx (ty :: v :: more) i)).snd.isNone) = true then
+        (Ctl.ret (none, (extPK env (idx (ty :: v :: more) i)).snd), st.fst, st.snd)
+      else (Ctl.next, st.fst.set st.snd.toNat (extPK env (idx (ty :: v :: more) i)).fst, st.snd + 1))
+    (fun e => (none, e)) (fun i ks j => rfl) (more.length + 1) 0 [] rfl (by simp)
+  have e1 : (Int.ofNat (ty :: v :: more).length - 1).toNat = more.length + 1 := by simp
+  have e2 : (Int.ofNat (ty :: v :: more).length - 1 : Int).toNat = more.length + 1 := e1
+  unfold countLoop
+  rw [e1]
+  simp only [List.drop_succ_cons, List.drop_zero, Nat.add_zero, List.nil_append] at h
+  constructor
+  · intro ks hks
+    exact ⟨_, h.1 ks hks⟩
+  · intro e he
+    exact h.2 e he
+
+/-- what the loop over the tags has produced so far, read as the model's result -/
+def fin : Ctl (Option P2PKTags × Option String) × P2PKTags → Res Tags
+  | (.ret r, _) => absRes r
+  | (.next, t) => .ok (tagsOf t)
+  | (.brk, t) => .ok (tagsOf t)
+
+theorem ParseP2PKTags_eq (env : Env) (tags : List (List String)) :
+    absRes (nut11_ParseP2PKTags extPI (extPK env) tags) = parseTags env tags := by
+  unfold nut11_ParseP2PKTags parseTags rangeLoop
+  by_cases hlen : tags.length > 5
+  · have : (Int.ofNat tags.length > 5) := by simp; omega
+    simp only [this, decide_true, if_true, hlen]
+    rfl
+  · have : ¬ (Int.ofNat tags.length > 5) := by simp; omega
+    simp only [this, decide_false, Bool.false_eq_true, if_false, hlen]
+    generalize hL : rangeLoopFrom _ 0 tags (default : P2PKTags) = L
+    have h : fin L = parseTagsLoop env tags (tagsOf default) := by
+      rw [← hL]
+      refine rangeLoopFrom_spec _
+        (fun (xs : List (List String)) (t : P2PKTags) (res : Ctl (Option P2PKTags × Option String) × P2PKTags) =>
+          fin res = parseTagsLoop env xs (tagsOf t)) ?_ ?_ 0 tags default
+      · intro s; rfl
+      · intro i x xs s
+        match x with
+        | [] => simp [fin, absRes, errOf, parseTagsLoop]
+        | [a] => simp [fin, absRes, errOf, parseTagsLoop]
+        | ty :: v :: more =>
+          have hl : ¬ (Int.ofNat (ty :: v :: more).length < 2) := by simp; omega
+          simp only [hl, decide_false, Bool.false_eq_true, if_false]
+          have i0 : idx (ty :: v :: more) 0 = ty := rfl
+          have i1 : idx (ty :: v :: more) 1 = v := rfl
+          simp only [i0, i1]
+          have hsp : ∀ f : String, sprintf f = f := fun _ => rfl
+          simp only [hsp]
+          by_cases h1 : ty = "sigflag"
+          · subst h1
+            by_cases hv : v = "SIG_INPUTS" ∨ v = "SIG_ALL"
+            · have hb : (v == "SIG_INPUTS" || v == "SIG_ALL") = true := by
+                rcases hv with rfl | rfl <;> decide
+              simp only [beq_self_eq_true, if_true, hb]
+              intro r hr
+              rw [hr]
+              simp only [parseTagsLoop, SIGFLAG, SIGINPUTS, SIGALL, if_true, hv]
+              rfl
+            · have hb : (v == "SIG_INPUTS" || v == "SIG_ALL") = false := by
+                simp only [not_or] at hv
+                simp [hv.1, hv.2]
+              simp only [beq_self_eq_true, if_true, hb, Bool.false_eq_true, if_false]
+              simp only [parseTagsLoop, SIGFLAG, SIGINPUTS, SIGALL, if_true, hv, if_false]
+              rfl
+          · have b1 : (ty == "sigflag") = false := by simpa using h1
+            simp only [b1, Bool.false_eq_true, if_false]
+            by_cases h2 : ty = "n_sigs"
+            · subst h2
+              simp only [beq_self_eq_true, if_true]
+              simp only [parseTagsLoop, SIGFLAG, NSIGS, h1, if_false, if_true]
+              unfold extPI
+              cases hp : parseInt v (Int.toNat 8) with
+              | none =>
+                have hp' : parseInt v 8 = none := hp
+                simp only [hp']
+                simp [fin, absRes, errOf]
+              | some n =>
+                have hp' : parseInt v 8 = some n := hp
+                simp only [hp', Option.isNone_none, Bool.not_true, Bool.false_eq_true, if_false]
+                by_cases hn : n < 0
+                · simp [hn, fin, absRes, errOf]
+                · simp only [hn, decide_false, Bool.false_eq_true, if_false]
+                  intro r hr
+                  rw [hr]
+                  rfl
+            · have b2 : (ty == "n_sigs") = false := by simpa using h2
+              simp only [b2, Bool.false_eq_true, if_false]
+              by_cases h3 : ty = "pubkeys"
+              · subst h3
+                simp only [beq_self_eq_true, if_true]
+                simp only [parseTagsLoop, SIGFLAG, NSIGS, PUBKEYS, h1, h2, if_false, if_true]
+                obtain ⟨hok, herr⟩ := keyLoop env "pubkeys" v more
+                cases hp : parseKeys env (v :: more) with
+                | ok ks =>
+                  obtain ⟨j, e⟩ := hok ks hp
+                  rw [e]
+                  intro r hr
+                  rw [hr]
+                  rfl
+                | err e =>
+                  obtain ⟨he, st, e'⟩ := herr e hp
+                  rw [e']
+                  subst he
+                  rfl
+              · have b3 : (ty == "pubkeys") = false := by simpa using h3
+                simp only [b3, Bool.false_eq_true, if_false]
+                by_cases h4 : ty = "locktime"
+                · subst h4
+                  simp only [beq_self_eq_true, if_true]
+                  simp only [parseTagsLoop, SIGFLAG, NSIGS, PUBKEYS, LOCKTIME, h1, h2, h3, if_false, if_true]
+                  unfold extPI
+                  cases hp : parseInt v (Int.toNat 64) with
+                  | none =>
+                    have hp' : parseInt v 64 = none := hp
+                    simp only [hp']
+                    simp [fin, absRes, errOf]
+                  | some n =>
+                    have hp' : parseInt v 64 = some n := hp
+                    simp only [hp', Option.isNone_none, Bool.not_true, Bool.false_eq_true, if_false]
+                    intro r hr
+                    rw [hr]
+                    rfl
+                · have b4 : (ty == "locktime") = false := by simpa using h4
+                  simp only [b4, Bool.false_eq_true, if_false]
+                  by_cases h5 : ty = "refund"
+                  · subst h5
+                    simp only [beq_self_eq_true, if_true]
+                    simp only [parseTagsLoop, SIGFLAG, NSIGS, PUBKEYS, LOCKTIME, REFUND, h1, h2, h3, h4, if_false, if_true]
+                    obtain ⟨hok, herr⟩ := keyLoop env "refund" v more
+                    cases hp : parseKeys env (v :: more) with
+                    | ok ks =>
+                      obtain ⟨j, e⟩ := hok ks hp
+                      rw [e]
+                      intro r hr
+                      rw [hr]
+                      rfl
+                    | err e =>
+                      obtain ⟨he, st, e'⟩ := herr e hp
+                      rw [e']
+                      subst he
+                      rfl
+                  · have b5 : (ty == "refund") = false := by simpa using h5
+                    simp only [b5, Bool.false_eq_true, if_false]
+                    simp only [parseTagsLoop, SIGFLAG, NSIGS, PUBKEYS, LOCKTIME, REFUND, h1, h2, h3, h4, h5, if_false]
+                    intro r hr
+                    exact hr
+    have hd : tagsOf default = ({} : Tags) := rfl
+    rw [hd] at h
+    rw [← h]
+    rcases L with ⟨c, t⟩
+    cases c <;> rfl
+
+end ParseTags
+
 /-! ## non-vacuity: the regenerated definitions compute (closed instances, evaluated by the kernel) -/
 example : AmountSplit 64 13 = some [1, 4, 8] := by decide
 example : OverflowAddUint64 18446744073709551615 1 = (18446744073709551615, true) := by decide
@@ -503,6 +789,11 @@ example : inputsWithoutDLEQ [{ Amount := 4, Id := "00ab", Secret := "s", C := "0
     [{ Amount := 4, Id := "00ab", Secret := "s", C := "02cc", Witness := "", DLEQ := none }] := by decide
 example : nut11_IsSigAll { Kind := 1, Data := { Nonce := "n", Data := "02aa", Tags := [["locktime", "5"], ["sigflag", "SIG_ALL"]] } } = true := by decide
 example : nut11_DuplicateSignatures ["aa", "bb", "aa"] = true := by decide
+example : (nut11_ParseP2PKTags (fun _ _ _ => (2, none)) (fun _ => (7, none))
+    [["sigflag", "SIG_ALL"], ["n_sigs", "2"], ["pubkeys", "02aa", "02bb"], ["zzz"]]).2 = some "InvalidTagErr" := by decide
+example : (nut11_ParseP2PKTags (fun _ _ _ => (2, none)) (fun _ => (7, none))
+    [["sigflag", "SIG_ALL"], ["n_sigs", "2"], ["pubkeys", "02aa", "02bb"]]).1.map (fun t => (t.Sigflag, t.NSigs, t.Pubkeys)) =
+    some ("SIG_ALL", 2, [7, 7]) := by decide
 example : Gen.Code.feesForCount 3 { Id := "", MintURL := "", Unit := "sat", Active := true, Counter := 0, InputFeePpk := 100 } = 1 := by decide
 
 end Gonuts.Tie.Code
